@@ -10,6 +10,7 @@ import (
 	"go/types"
 	"strings"
 	"sync"
+	"time"
 
 	"golang.org/x/tools/go/ssa"
 )
@@ -238,6 +239,17 @@ func (in *Interp) global(g *ssa.Global) Ptr {
 		return p
 	}
 	// lazily created zero cell; initialisers run explicitly (see runInit)
+	if g.Pkg != nil && g.Pkg.Pkg.Path() == "time" && (g.Name() == "Local" || g.Name() == "UTC") {
+		// the two location pointers are opaque native handles
+		p := new(Value)
+		if g.Name() == "Local" {
+			*p = Native{time.Local}
+		} else {
+			*p = Native{time.UTC}
+		}
+		in.globals[g] = p
+		return p
+	}
 	if g.Pkg != nil {
 		path := g.Pkg.Pkg.Path()
 		if !strings.HasPrefix(path, "servitor") && !in.P.initAllow[path] && !strings.HasPrefix(g.Name(), "init$") && !strings.HasPrefix(path, "github.com/yuin/goldmark") {
